@@ -31,5 +31,5 @@ meta2 = {
     "caught": bool(ev.get("checks_fired")),
 }
 json.dump(meta2, open(os.path.join(dst, "meta.json"), "w"), indent=1)
-print(name, "caught" if meta2["caught"] else "MISSED", {k: [l.split("  ")[1] for l in v["lines"]] for k, v in (ev.get("checks_fired") or {}).items()},
+print(name, "caught" if meta2["caught"] else "MISSED", {k: [l.split("  ")[1] for l in v["lines"] if "  " in l] for k, v in (ev.get("checks_fired") or {}).items()},
       "demo", ev.get("demo_clean_rc"), ev.get("demo_patched_rc"), ev.get("tests", ""))
